@@ -281,12 +281,22 @@ class Slicer:
                 j += 1
         return arms
 
+    dropped_return = "Err(())"
+
+    def drop_arm(self, scrutinee, pattern):
+        """hook: True when a unit declares (as an assumption) that this arm is never taken"""
+        return False
+
     def emit_arms(self, arms, k, indent):
+        scrut = getattr(self, "scrutinee", "")
         self.emit("%smatch nondet_u8() {" % indent, k)
         for i, (kind, a2, b2, arrow, _p) in enumerate(arms):
             pat = "_" if i == len(arms) - 1 else str(i)
             self.emit("%s    %s => {" % (indent, pat), arrow)
-            self.block(a2, b2, indent + "        ")
+            if self.drop_arm(scrut, self.text(_p, arrow)):
+                self.emit("%s        return %s;" % (indent, self.dropped_return), arrow)
+            else:
+                self.block(a2, b2, indent + "        ")
             self.emit("%s    }" % indent, b2 - 1 if b2 > 0 else arrow)
         if not arms:
             self.emit("%s    _ => {}" % indent, k)
@@ -327,6 +337,7 @@ class Slicer:
             c = self.close(open_)
             self.inner(k + 1, open_, indent)
             arms = self.match_arms(open_, c)
+            self.scrutinee = self.text(k + 1, open_)
             self.emit_arms(arms, k, indent)
             return c + 1
         if t.text in ("while", "for"):
